@@ -8,6 +8,9 @@ ATTACH = [Attach(SRC, "src/solver/decision_tracker.rs", "verif_dt")]
 SHAPES = {1: [0], 2: [0, 3], 3: [0, 2, 1], 4: [0, 3, 1, 4]}
 
 
+PATHS_HARNESS = False   # measured: no answer in 2400 s (path explosion over symbolic levels) - kept in the file, not run
+
+
 def H(name, **kw):
     h = Harness(name, **kw)
     h.group_file = SRC
@@ -36,6 +39,12 @@ def harnesses(tier):
     hs.append(H("dt_clear_resets_everything", bounds="trail of 3 decisions, one propagated, then clear()",
                 symbolic=["values", "levels", "reasons"], enumerated=["variable ids [0,1,2]"], min_covers=1, timeout=600,
                 group="dt_clear"))
+    if tier == "thorough" and PATHS_HARNESS:
+      hs.append(H("dt_paths_symbolic_length",
+                bounds="trail of 1..=4 decisions (length SYMBOLIC, CBMC path mode) on variables [0,3,1,4]; values, non-decreasing levels <= 1000, propagated prefix and target level symbolic",
+                symbolic=["trail length", "values", "levels", "propagated prefix length", "target level"], enumerated=["variable id order [0,3,1,4]"],
+                min_covers=3, timeout=2400, mem_gb=16, group="dt_paths",
+                extra_args=["-Z", "unstable-options", "--cbmc-args", "--paths", "lifo"]))
     hs.append(H("dt_twin_must_fail", bounds="vacuity twin of dt_undo_until_2", expect="fail", timeout=600, group="dt"))
     return hs
 
